@@ -84,7 +84,7 @@ def requirements(tier):
         "bplane:evaluated": 5000 * k, "bplane:state-with-history": 2000 * k, "bplane:pre-periapsis": 1500 * k, "bplane:post-periapsis": 1500 * k,
         "bplane:e<2": 500 * k, "bplane:e>5": 500 * k,
         "ltan:mean": 1500 * k, "ltan:true": 1500 * k,
-        "beta:ref:Sun": 800 * k, "beta:ref:Moon": 800 * k, "beta:ref:orbit": 800 * k, "beta:ref:on-normal": 100 * k,
+        "beta:orbit-about-the-moon": 300 * k, "beta:ref:Sun": 800 * k, "beta:ref:Moon": 600 * k, "beta:ref:orbit": 800 * k, "beta:ref:on-normal": 100 * k,
         "walker:Star": len(WALKER) // 2, "walker:Delta": len(WALKER) // 2, "walker:satellites": 100000,
     }
 
@@ -652,11 +652,20 @@ def case_beta(ctx, job, idx, rng, st):
     frame = ["EME2000", "MOD", "TOD", "TEME"][idx % 4]
     kind = ["Sun", "Moon", "orbit", "Sun", "Moon", "orbit", "orbit-later", "Sun", "Moon", "on-normal"][(idx // 4) % 10]
     date, d, s = _date(rng, (2000, 2017), "TAI")
-    c = gen.orbit_case(rng, body_name="Earth", ecc_class=rng.choice(["near-circular", "moderate", "high", "hyp-low"]),
-                       rp_range=(6.6e6, 6e7))
+    lunar = idx % 7 == 6
+    if lunar:
+        # an orbiter of another body, in the frame centred on that body (the documented use: "the obscuring body")
+        from beyond.env import solarsystem
+
+        frame = solarsystem.get_frame("Moon")
+        kind = "Sun"
+        mu = float(gen.bodies()["Moon"].mu)
+        ctx.count("beta:orbit-about-the-moon")
+    c = gen.orbit_case(rng, body_name="Moon" if lunar else "Earth", ecc_class=rng.choice(["near-circular", "moderate", "high", "hyp-low"]),
+                       rp_range=(1.9e6, 2e7) if lunar else (6.6e6, 6e7))
     r, v = np.array(c["r"]), np.array(c["v"])
     form = rng.choice(["cartesian", "keplerian", "keplerian_mean", "equinoctial"]) if c["e"] < 1 else "cartesian"
-    descr = {"frame": frame, "ref": kind, "mjd": [d, s], "r": c["r"], "v": c["v"], "form": form}
+    descr = {"frame": str(frame), "ref": kind, "mjd": [d, s], "r": c["r"], "v": c["v"], "form": form}
     ctx.case(descr)
     w = dict(descr)
     hh = np.cross(r, v)
